@@ -159,6 +159,14 @@ def c01_structured():
     out.append(("F7-hierarchy-2", dict(hierarchy=2),
                 dict(ops={}, nodes={}, edges=[edge("d1/c1/p1/op/r", "d2/c2/p2/op/r_in", 0.4)],
                      circuits={"d1": outer, "d2": outer})))
+    import json as _json
+    leaf1 = model([base], {"p0": dict(ops=["op"]), "p1": dict(ops=["op"], over={"op/tau": 3.0})}, [edge("p0/op/r", "p1/op/r_in", 1.5)])
+    leaf2 = model([base], {"p0": dict(ops=["op"], over={"op/tau": 0.7}), "p1": dict(ops=["op"])}, [edge("p1/op/r", "p0/op/r_in", -2.0)])
+    mid_a = dict(ops={}, nodes={}, edges=[], circuits={"l0": leaf1, "l1": _json.loads(_json.dumps(leaf2))})          # NO own edges
+    mid_b = dict(ops={}, nodes={}, edges=[edge("l0/p1/op/r", "l1/p0/op/r_in", 0.6)],
+                 circuits={"l0": _json.loads(_json.dumps(leaf1)), "l1": _json.loads(_json.dumps(leaf2))})
+    out.append(("F7b-hierarchy-3-mid-level-without-edges", dict(hierarchy=3),
+                dict(ops={}, nodes={}, edges=[edge("m0/l0/p0/op/r", "m1/l1/p1/op/r_in", 0.4)], circuits={"m0": mid_b, "m1": mid_a})))
     return out
 
 
@@ -253,6 +261,15 @@ def delay_families(kind="discrete"):
     out.append(("D6-ring-4-two-delay-values", dict(population=4), model([pop], nodes_, es_)))
     es2 = [E(f"n{(3 * i + 1) % nn_}/op/r", f"n{i}/op/r_in", 0.5 + 0.25 * i, 0.3, 0.1) for i in range(nn_)]
     out.append(("D7-permuted-uniform-delay", dict(population=4, uniform=True), model([pop], nodes_, es2)))
+    # one source node TYPE (two nodes) projecting to three target groups (its own type and two others) with different delays
+    tb = op_li("tb", x="w", ins=("u",), tau=1.5, x0=-0.1, in_defaults={"u": 0.0})
+    tc = op_li("tc", x="z", ins=("u",), tau=0.8, x0=0.2, in_defaults={"u": 0.0})
+    nodes9 = {"a0": dict(ops=["op"]), "a1": dict(ops=["op"], over={"op/tau": 3.0}), "b0": dict(ops=["tb"]), "b1": dict(ops=["tb"], over={"tb/tau": 2.5}),
+              "c0": dict(ops=["tc"]), "c1": dict(ops=["tc"], over={"tc/tau": 0.5})}
+    es9 = [E("a0/op/r", "a1/op/r_in", 0.5, 0.2, 0.1), E("a1/op/r", "a0/op/r_in", -0.4, 0.2, 0.1),
+           E("a0/op/r", "b0/tb/u", 1.0, 0.3, 0.1), E("a1/op/r", "b1/tb/u", 0.8, 0.3, 0.1),
+           E("a0/op/r", "c1/tc/u", 1.5, 0.4, 0.2), E("a1/op/r", "c0/tc/u", -1.2, 0.4, 0.2)]
+    out.append(("D9-one-source-type-three-target-groups", dict(groups=3), model([pop, tb, tc], nodes9, es9)))
     if kind == "gamma":
         out.append(("G1-same-order-different-rate", dict(),
                     model([pop, tgt], dict(two, t1=dict(ops=["tg"]), t2=dict(ops=["tg"], over={"tg/tau": 2.0}), t3=dict(ops=["tg"], over={"tg/tau": 0.5})),
@@ -467,6 +484,11 @@ def c16_cases(seed=0):
         ps = dict(ops=ops, pops={"a": dict(ops=["op"], n=3, params={"op/tau": het(3, 1.0, 3.0), "op/r": het(3, -0.5, 0.5)})},
                   conns=[dict(src="a/op/r", tgt="a/op/r_in", W=W(3, 3), d=d)])
         out.append((f"P5-discrete-delay-{tagd}", dict(delay=d, dt=0.1), ps))
+    ps = dict(ops=ops, pops={"a": dict(ops=["op"], n=3, params={"op/tau": het(3, 1.0, 3.0), "op/r": het(3, -0.5, 0.5)}),
+                             "b": dict(ops=["tg"], n=3, params={"tg/v": het(3, -0.5, 0.5)})},
+              conns=[dict(src="a/op/r", tgt="b/tg/u", W=W(3, 3), d=0.3), dict(src="a/op/r", tgt="b/tg/w", W=W(3, 3)),
+                     dict(src="b/tg/v", tgt="a/op/r_in", W=0.4)])
+    out.append(("P5b-delayed-and-undelayed-from-one-source", dict(delay=0.3, dt=0.1), ps))
     for d, s_ in ((0.3, 0.1), (0.5, 0.3), (0.4, 0.2)):
         ps = dict(ops=ops, pops={"a": dict(ops=["op"], n=3, params={"op/tau": het(3, 1.0, 3.0), "op/r": het(3, -0.5, 0.5)})},
                   conns=[dict(src="a/op/r", tgt="a/op/r_in", W=W(3, 3), d=d, s=s_)])
@@ -494,6 +516,10 @@ def dde_models():
     d4 = dict(name="d4", eqs=[["x", "de", ["+", ["+", ["neg", V("x")], ["*", N(0.5), ["past", "x", 0.3]]], ["*", N(0.25), ["past", "x", 0.8]]]]],
               vars={"x": ["output", 0.6]})
     out.append(("H4-one-variable-two-delays", dict(delays=[0.3, 0.8]), model([d4], {"p": dict(ops=["d4"])})))
+    d8 = dict(name="d8", eqs=[["x", "de", ["+", ["neg", V("x")], ["*", N(0.5), ["past", "x", 0.3]]]],
+                              ["z", "de", ["+", ["neg", V("z")], ["*", N(1.5), ["past", "x", 0.7]]]]],
+              vars={"x": ["output", 0.3], "z": ["state", -0.2]})
+    out.append(("H8-one-variable-two-delays-two-equations", dict(delays=[0.3, 0.7]), model([d8], {"p": dict(ops=["d8"])})))
     # instantaneous entry that still contains a delayed factor
     d5 = dict(name="d5", eqs=[["x", "de", ["+", ["neg", V("x")], ["*", V("x"), ["past", "x", 0.4]]]]], vars={"x": ["output", 0.6]})
     out.append(("H5-product-with-delayed-factor", dict(delays=[0.4]), model([d5], {"p": dict(ops=["d5"])})))
